@@ -39,6 +39,15 @@ impl<'a> ExpressionReducer for UndefinedFunctionReducer<'a> {
                 name,
                 self.visit_expressions(args)?,
             )),
+            Expression::Parenthesis(child) => {
+                let mapped_child = self.visit_expression_pos(*child)?;
+                Ok(Expression::Parenthesis(Box::new(mapped_child)))
+            }
+            Expression::ArrayElement(name, args, expression_type) => Ok(Expression::ArrayElement(
+                name,
+                self.visit_expressions(args)?,
+                expression_type,
+            )),
             _ => Ok(expression),
         }
     }
